@@ -6,6 +6,7 @@ import AikenVerif.Drivers.DeBruijn
 import AikenVerif.Drivers.Schema
 import AikenVerif.Drivers.Budget
 import AikenVerif.Drivers.Prec
+import AikenVerif.Drivers.Text
 /-!
 Native driver: line protocol.  Each request line is
   `<sub-command> <case-id> <fields…>`
@@ -32,6 +33,9 @@ def dispatch (st : DriverState) (sub : String) (args : List String) : DriverStat
     (st, Drivers.Schema.handle sub args)
   | "budget" => (st, Drivers.Budget.handle args)
   | "prec" => (st, Drivers.Prec.handle args)
+  | "text-print" => (st, Drivers.Text.handlePrint args)
+  | "text-parse" => (st, Drivers.Text.handleParse args)
+  | "text-lex" => (st, Drivers.Text.handleLex args)
   | _ => (st, "unknown-subcommand")
 
 partial def loop (h : IO.FS.Stream) (out : IO.FS.Stream) (st : DriverState) : IO Unit := do
